@@ -208,11 +208,11 @@ def pipeline(tier, rep, calibrate=True):
     return tv, st
 
 
-def replay(path):
-    """Re-execute one saved deviating event on the current tree: rebuild the model of its instantiation, take the
-    planned script of the very same edge (same pre-state, call and arguments), run it and validate the trace again."""
-    j = json.load(open(path))
-    ev = j["event"]
+def replay(rec):
+    """check.py --replay hook. Re-executes one saved deviating event on the current tree: rebuilds the model of its
+    instantiation, takes the planned script of the very same edge (same pre-state, call and arguments), runs it on the
+    real templates and validates the trace again. Returns the (non-lifetime) deviations that are still reported."""
+    ev = rec["event"]
     inst = ev["inst"]
     kind, alts, src, mix, grp = INSTS[inst]
     r = vlib.tlc_mc("Sum.tla", "Sum_%s.cfg" % kind, "sum_replay_" + inst, workers=2, constants=_consts(kind, alts, src, mix), heap="2g")
@@ -222,7 +222,6 @@ def replay(path):
     if not want:
         raise vlib.ModelFailure("replay: the model of %s has no edge for the saved event" % inst)
     sc, st = vlib.plan_edges(gen, _key, lambda n: n == s0, _call, follow=lambda t: t["op"] in PATH_OPS)
-    script = [s_ for s_ in sc if s_[-1] == _call(want[0])][:1]
     # the planner emits one script per edge in the order of gen: pick by index to keep the exact pre-state
     idx = gen.index(want[0])
     script = [sc[idx]]
@@ -234,9 +233,4 @@ def replay(path):
     tp = os.path.join(vlib.workdir("traces"), "sum_replay.ndjson")
     vlib.run([b, "replay", inst, sp], tp)
     tv = vlib.tlc_tv("SumTrace.tla", "SumTrace.cfg", tp, "sum_tv_replay")
-    devs = [d for d in tv["deviations"] if not d["kind"].startswith("life")]
-    for d in devs:
-        print("VIOLATION property=C07 replay=%s kind=%s op=%s" % (path, d["kind"], d.get("ev", {}).get("op")))
-    if not devs:
-        print("replay: %d event(s) re-executed, no deviation on the current tree" % tv["events"])
-    return 1 if devs else 0
+    return [d for d in tv["deviations"] if not d["kind"].startswith("life")]
